@@ -14,6 +14,7 @@
 // class together with a width / pad.  Everything else (other assertion, other exception, signal,
 // hang, heap canary damage) is a violation.
 #define VF_MAIN_TU
+#include "early.h"
 #include "verif.h"
 #include "alloc.h"
 #include "ref_format.h"
@@ -22,6 +23,7 @@
 #include "st_format.h"
 #include "st_iostream.h"
 #include "st_stdio.h"
+#include "early_battery.h"
 #include <sstream>
 
 using vf::Ctx;
@@ -517,6 +519,7 @@ static void build(vf::Plan &plan, const vf::Opts &o)
                    [mk](uint64_t i) { return describe_fmt(mk(i)) + " ; and with unterminated string_view arguments of every width"; })
             .case_timeout_s = 5;
     }
+    vf_early::add_stage(plan);
 }
 
 VF_MAIN("C10", build)
